@@ -318,6 +318,24 @@ example : Gen [.release, .other] [.put 1, .use 1] :=
   Gen.release (seg := [.put 1]) (by intro e he; simp at he; subst he; rfl)
     (Gen.other (seg := [.use 1]) (by intro e he; simp at he; subst he; exact ⟨rfl, rfl⟩) Gen.nil)
 
+/-- why a double Put matters (model): an object put twice is still in the pool after it has been
+handed out once — the next Get can hand the same object to a second owner -/
+theorem double_put_hands_out_twice (pool : List Nat) (id : Nat) :
+    id ∈ poolAfter [PEv.put id, PEv.put id, PEv.get id] pool := by
+  simp [poolAfter]
+
+/-- **deferred releases** (the `removed` list of bentleyOttmann): every site that puts objects on a
+list released at the end of the function is followed, in an enclosing block of the same pass, by a
+re-slicing deletion from the container the objects came from (`square.Events = append(square.Events[:i-del], …)`
+/ `square.Events[:len-del]`), and it puts exactly the pair `event.other, event` of a right end point.
+So the final loops release disjoint sets PROVIDED every end point occurs in one square only and once
+— that part is not syntactic; it is audited on the running code (VerifC20PutAudit: every object a
+call returned to the pools is drained again and must come out once; kind pool:double-put). -/
+theorem deferred_releases_deleted_from_container :
+    (∀ d, d ∈ deferredReleases → d.deleted = true ∧ d.args = ["event.other", "event"] ∧ d.fn = "bentleyOttmann") ∧
+    deferredReleases.length = 2 := by
+  decide
+
 /-- the ownership hypothesis of `lockset_drf` (fields of a pooled object are accessed only between
 its Get and its Put, `Prot.guarded (Tok.obj p v)`) matters: in the MODEL, an object that is still
 read after it was Put races with the initialisation by the next thread that Gets it, in a
